@@ -1061,19 +1061,29 @@ func c07Errors(c *Ctx, walk, step *ssa.Function) {
 		})
 	}
 	// Walk: err != nil -> stride.To is set unless already at the error node
+	// (in Walk itself, or in the helper of package core that takes one step for it)
 	var stepCall *ssa.Call
-	ssau.Instrs(walk, func(in ssa.Instruction) {
-		if cl, ok := in.(*ssa.Call); ok && cl.Common().StaticCallee() == step {
-			stepCall = cl
+	walkFns := []*ssa.Function{walk}
+	for _, f := range pkgClosure(walk) {
+		if f != walk && f != step && prog.PkgOf(f) == "core" {
+			walkFns = append(walkFns, f)
 		}
-	})
+	}
+	for _, f := range walkFns {
+		ssau.Instrs(f, func(in ssa.Instruction) {
+			if cl, ok := in.(*ssa.Call); ok && cl.Common().StaticCallee() == step {
+				stepCall = cl
+			}
+		})
+	}
 	if stepCall == nil {
+		c.R.Break("C07-R11: Walk (with its helpers in package core) does not call Step")
 		return
 	}
 	ok := false
 	exemptBad, staleBad := "", ""
 	var pos ssa.Instruction = stepCall
-	for _, st := range storesTo(walk, "Stride", "To") {
+	for _, st := range storesTo(stepCall.Parent(), "Stride", "To") {
 		// the store must be under err != nil and not under any other condition than NodeName != "error"
 		under := false
 		for _, f := range flow.FactsAt(st.Block()) {
